@@ -61,7 +61,7 @@ def main():
     if confirmed:
         m = json.load(open('/verif/MANIFEST.json'))
         pids = checks or [c['property_id'] for c in m['checks']]
-        env = dict(os.environ, CATSA_REPO=scratch, CATSA_EVID=scratch + '/evid', CATSA_JOBS=os.environ.get('CATSA_JOBS', '6'))
+        env = dict(os.environ, CATSA_REPO=scratch, CATSA_EVID=scratch + '/evid', CATSA_CACHE=scratch + '/cache', CATSA_JOBS=os.environ.get('CATSA_JOBS', '6'))
         for pid in pids:
             t = time.time()
             r = subprocess.run(['/verif/check', pid], capture_output=True, text=True, env=env, timeout=3600)
